@@ -474,8 +474,10 @@ fn sequence(depth: u32, min: usize, max: usize) -> BoxedStrategy<Vec<Tok>> {
             }
             match pc.group {
                 Some(g) => {
-                    let fences = [("(", ")"), ("[", "]"), ("{", "}")];
-                    let (o, c) = fences[(wrap as usize) % 3];
+                    // mostly the unambiguous pairs; one group in five is fenced by bars (open = close: MathCAT has to
+                    // work out from the context which bar opens and which closes) or by angle / ceiling brackets
+                    let fences = [("(", ")"), ("[", "]"), ("{", "}"), ("(", ")"), ("[", "]"), ("(", ")"), ("{", "}"), ("(", ")"), ("|", "|"), ("‖", "‖"), ("⟨", "⟩"), ("⌈", "⌉"), ("|", "|"), ("‖", "‖"), ("[", "]")];
+                    let (o, c) = fences[(wrap as usize) % fences.len()];
                     if wrap % 5 == 0 {
                         unit.push(Tok::Group(g));
                     } else {
@@ -502,6 +504,83 @@ fn sequence(depth: u32, min: usize, max: usize) -> BoxedStrategy<Vec<Tok>> {
 }
 
 /// repair a sequence so that the documented heuristics stay out of the way
+/// Bars are ambiguous (open = close, and also infix): which one opens and which closes is a documented heuristic.
+/// A bar pair is kept only where a reader has no doubt: not nested in another bar pair, not next to another bar, and
+/// no bar-like operator anywhere in the sequence; otherwise the pair is turned into parentheses.
+fn tame_bars(toks: &mut Vec<Tok>) {
+    fn is_bar(t: &str) -> bool {
+        ["|", "‖", "∥", "∣", "ǁ"].contains(&t)
+    }
+    fn has_bar_op(toks: &[Tok]) -> bool {
+        toks.iter().any(|t| match t {
+            Tok::Op(x, _) => is_bar(x),
+            Tok::Atom(_, x) => is_bar(x),
+            Tok::Group(g) => has_bar_op(g),
+            _ => false,
+        })
+    }
+    fn rec(toks: &mut Vec<Tok>, bars_open: &mut usize, all: bool) {
+        let mut stack: Vec<bool> = vec![]; // per open fence of this level: (was converted or is not a bar)
+        for i in 0..toks.len() {
+            let prev_is_bar = i > 0 && matches!(&toks[i - 1], Tok::Open(x) | Tok::Close(x) if is_bar(x));
+            // the contents up to the matching close: only atoms and arithmetic (|x|, |a+b|, ‖v‖): relations or other
+            // fences inside bars make MathCAT (and readers) consider the "such that" / "divides" readings
+            let simple_contents = {
+                let mut depth = 0usize;
+                let mut ok = true;
+                for t in &toks[i + 1..] {
+                    match t {
+                        Tok::Open(_) => {
+                            depth += 1;
+                            ok = false;
+                        }
+                        Tok::Close(_) => {
+                            if depth == 0 {
+                                break;
+                            }
+                            depth -= 1;
+                        }
+                        Tok::Atom(..) => {}
+                        Tok::Op(x, f) => ok &= f == "infix" && ["+", "-", "−", "×", "·", "/", "\u{2062}"].contains(&x.as_str()),
+                        Tok::Group(_) => ok = false,
+                    }
+                }
+                ok
+            };
+            match &mut toks[i] {
+                Tok::Group(g) => rec(g, bars_open, all),
+                Tok::Open(o) => {
+                    if is_bar(o) {
+                        if all || *bars_open > 0 || prev_is_bar || !simple_contents {
+                            *o = "(".to_string();
+                            stack.push(true);
+                        } else {
+                            *bars_open += 1;
+                            stack.push(false);
+                        }
+                    } else {
+                        stack.push(true);
+                    }
+                }
+                Tok::Close(c) => {
+                    let converted = stack.pop().unwrap_or(true);
+                    if is_bar(c) {
+                        if converted {
+                            *c = ")".to_string();
+                        } else {
+                            *bars_open = bars_open.saturating_sub(1);
+                        }
+                    }
+                }
+                _ => {}
+            }
+        }
+    }
+    let all = has_bar_op(toks);
+    let mut open = 0;
+    rec(toks, &mut open, all);
+}
+
 fn sanitize_seq(toks: Vec<Tok>) -> Vec<Tok> {
     let mut out: Vec<Tok> = vec![];
     for t in toks {
@@ -555,7 +634,11 @@ impl Property for C03 {
     }
     fn strategy(&self, tier: Tier) -> BoxedStrategy<Case> {
         let max = if tier == Tier::Thorough { 6 } else { 5 };
-        let exact = (sequence(2, 1, max), any::<u8>()).prop_map(|(t, place)| Case { toks: sanitize_seq(t), place, exact: true });
+        let exact = (sequence(2, 1, max), any::<u8>()).prop_map(|(t, place)| {
+            let mut toks = sanitize_seq(t);
+            tame_bars(&mut toks);
+            Case { toks, place, exact: true }
+        });
         // validity-only part: any dictionary operator (incl. multi-form and special ones) between atoms
         let any_op = proptest::sample::select(operators().iter().filter(|o| !o.forms.iter().any(|(f, _)| matches!(f, OpForm::LeftFence | OpForm::RightFence))).map(|o| o.text.clone()).collect::<Vec<_>>());
         let loose = (proptest::collection::vec((atom(), any_op, 0..10u8), 2..6), any::<u8>()).prop_map(|(v, place)| {
@@ -598,6 +681,16 @@ impl Property for C03 {
             for (s, d) in oracle_a(sub) {
                 viols.push((format!("A:{}", s), format!("{}\ninput: {}\noutput: {}", d, xml, out.replace('\n', ""))));
             }
+            fn has_bar_fence(t: &[Tok]) -> bool {
+                t.iter().any(|x| match x {
+                    Tok::Open(o) => o == "|" || o == "‖",
+                    Tok::Group(g) => has_bar_fence(g),
+                    _ => false,
+                })
+            }
+            if has_bar_fence(&case.toks) {
+                classes.push("fence:bar-pair".into());
+            }
             let mut ambiguous = false;
             match reference_parse(&case.toks, &mut ambiguous) {
                 None => classes.push("reference-cannot-parse".into()),
@@ -608,7 +701,48 @@ impl Property for C03 {
                     reference.leaves(&mut lr);
                     got.leaves(&mut lg);
                     let lg: Vec<String> = lg.into_iter().map(|s| if s == "\u{2212}" { "-".to_string() } else { s }).collect();
-                    if lr != lg {
+                    let invisible = |s: &String| s.chars().all(|c| ('\u{2061}'..='\u{2064}').contains(&c)) && !s.is_empty();
+                    let visible_only = |v: &Vec<String>| v.iter().filter(|s| !invisible(s)).cloned().collect::<Vec<_>>();
+                    if lr != lg && visible_only(&lr) == visible_only(&lg) && lr.len() == lg.len() {
+                        // the same visible tokens and the same number of invisible operators, but at other places: an implied
+                        // operator was put on the wrong side of a fence or operand
+                        let at = lr.iter().zip(lg.iter()).position(|(a, b)| a != b).unwrap_or(0);
+                        if invisible(&lr[at]) != invisible(&lg[at]) {
+                            // which bar pair: contents with operators of several precedence levels are a listed finding
+                            // (the matching open bar is then deeper in the parse stack than determine_vertical_bar_op looks)
+                            fn max_ops_in_bars(t: &[Tok]) -> usize {
+                                let mut best = 0;
+                                let mut i = 0;
+                                while i < t.len() {
+                                    match &t[i] {
+                                        Tok::Open(o) if o == "|" || o == "‖" => {
+                                            let mut n = 0;
+                                            let mut j = i + 1;
+                                            while j < t.len() && !matches!(&t[j], Tok::Close(_)) {
+                                                if matches!(&t[j], Tok::Op(..)) {
+                                                    n += 1;
+                                                }
+                                                j += 1;
+                                            }
+                                            best = best.max(n);
+                                            i = j;
+                                        }
+                                        Tok::Group(g) => best = best.max(max_ops_in_bars(g)),
+                                        _ => {}
+                                    }
+                                    i += 1;
+                                }
+                                best
+                            }
+                            let kind = if max_ops_in_bars(&case.toks) >= 2 { "bars-around-several-operators" } else { "simple" };
+                            viols.push((format!("B:implied-operator-misplaced:{}", kind), format!("reference leaves: {:?}
+MathCAT leaves:   {:?}
+input: {}
+output: {}", lr, lg, xml, out.replace('\n', ""))));
+                        } else {
+                            classes.push("leaves-differ".into());
+                        }
+                    } else if lr != lg {
                         // token text was normalised or an operator was inserted that the reference does not know: not judged
                         classes.push("leaves-differ".into());
                     } else {
